@@ -231,6 +231,10 @@ impl Gen {
                     if c < 45 && ctx.n_readers > 0 {
                         return Some(Step::CloseReader { idx: self.r.below(ctx.n_readers as u64) as u32 });
                     }
+                    // the built-in consistency check is one more reader that comes and goes
+                    if c < 50 && ctx.n_readers > 0 {
+                        return Some(Step::Check);
+                    }
                 }
                 if self.txs_done > 0 && self.r.chance(self.cfg.p_reopen as u64, 100) && ctx.n_readers == 0 {
                     self.txs_done += 0;
